@@ -25,6 +25,7 @@ tests/nix-files/pkgs/trl-default.nix) or to an RFC 0166 paragraph:
   multi-line formals with trailing comma           trl-default.nix (pass-through only: the pinned grammar rejects them)
   `let … in` block before the body                 trl-default.nix
   chains of 2-4 directly nested let blocks         docs/cli.md ("Update an outer scope binding": let/in/let/in/body)
+  `k =` / let block / `in` / call as a binding value   RFC 0166 "let" (a let as binding value starts on the next line, body after `in` at the let's indentation)
   non-ASCII text in comments and string values      the property's "whatever the ... literal values"; layout identical to ASCII
   bodies: set, `f { … }`, `f rec { … }`            test_function_calls_function / _recursive_function
 """
@@ -104,6 +105,18 @@ def m_utf8(i, n):
     return [f'{IND*i}u{n} = "Jörg «x» ✓";']
 
 
+def m_letcall(i, n):
+    return [
+        f"{IND*i}src{n} =",
+        f"{IND*(i+1)}let",
+        f'{IND*(i+2)}rev = "v{n}";',
+        f"{IND*(i+1)}in",
+        f"{IND*(i+1)}fetchFromGitHub {{",
+        f"{IND*(i+2)}inherit rev;",
+        f"{IND*(i+1)}}};",
+    ]
+
+
 def m_istr(i, n):
     return [f"{IND*i}t{n} = ''", f"{IND*(i+1)}echo hi", f"{IND*(i+1)}make install", f"{IND*i}'';"]
 
@@ -111,7 +124,7 @@ def m_istr(i, n):
 MEMBERS = {
     "scalar": m_scalar, "string": m_string, "bool": m_bool, "select": m_select, "list1": m_list1, "mllist": m_mllist,
     "nested": m_nested, "call": m_call, "with": m_with, "attrpath": m_attrpath, "inherit": m_inherit,
-    "inherit_from": m_inherit_from, "empty": m_empty, "emptylist": m_emptylist, "if": m_if, "istr": m_istr, "utf8": m_utf8,
+    "inherit_from": m_inherit_from, "empty": m_empty, "emptylist": m_emptylist, "if": m_if, "istr": m_istr, "utf8": m_utf8, "letcall": m_letcall,
 }
 # decorations attach to a member position: (kind, position)
 DECOS = ["own_comment", "blank", "eol_comment", "block_comment", "blank_own_comment"]
@@ -131,8 +144,8 @@ def render_members(kinds, decos, level):
         if "own_comment" in ds:
             lines.append(f"{IND*level}# about member {idx}")
         ml = MEMBERS[k](level, idx)
-        if "eol_comment" in ds and len(ml) == 1:
-            ml = [ml[0] + " # note"]
+        if "eol_comment" in ds:
+            ml = ml[:-1] + [ml[-1] + " # note"]  # also after the closing line of a multi-line value
         lines += ml
     # the canonical form never has two consecutive blank lines
     out = []
@@ -317,11 +330,27 @@ def run(prop: str, tier: str) -> core.Report:
     fl = {}
     for cls, spec, detail in raw:
         memo[(spec, cls)] = True
-    for cls, spec, detail in raw:
-        if any(fails(s2, cls) for s2 in spec_reductions(spec)):
-            continue
-        sig = f"{cls}|{spec!r}"
-        fl[sig] = core.Failure(prop="C02", sig=sig, cls=cls, case={"kind": "c02", "spec": _enc(spec), "text": render_file(*spec)}, detail=detail, group=cls)
+    minimal_memo = {}
+
+    def minimal(spec, cls):
+        """minimal failing derivations reachable by removing parts (evaluated on demand: the reduced
+        derivations need not be members of the enumerated plan)"""
+        k = (spec, cls)
+        if k in minimal_memo:
+            return minimal_memo[k]
+        minimal_memo[k] = frozenset()
+        smaller = [s2 for s2 in spec_reductions(spec) if fails(s2, cls)]
+        res = frozenset([spec]) if not smaller else frozenset().union(*[minimal(s2, cls) for s2 in smaller])
+        minimal_memo[k] = res
+        return res
+
+    budget = 3000  # raw failures minimised (flood control); the rest are reported raw if nothing was found
+    for cls, spec, detail in raw[:budget]:
+        for m in minimal(spec, cls):
+            sig = f"{cls}|{m!r}"
+            if sig not in fl:
+                det = next((d for c, d in judge(m)[1] if c == cls), detail)
+                fl[sig] = core.Failure(prop="C02", sig=sig, cls=cls, case={"kind": "c02", "spec": _enc(m), "text": render_file(*m)}, detail=det, group=cls)
     cov = {
         "evaluations": n,
         "distinct_nontrivial": len(set(sp)),
